@@ -6,7 +6,7 @@ GO = dict(module="extras", pkg="transport/udphop", pkgname="udphop",
 PARAMS_NAME = "ParamsC19"
 HEADER = ("From Hy Require Import lib.Harness model.C19_PortUnion model.C19_Hop corr.C19_Corr.\n"
           "From Coq Require Import ZArith.\nLocal Open Scope N_scope.\n")
-RULE = ("seeded generator: (pu) every string over a 4-letter alphabet up to length 4 (6 letters, length 5 in the thorough tier), grammar-directed port expressions (singles, ranges, reversed, equal, adjacent, overlapping, nested, "
+RULE = ("seeded generator: (pu) every string over a 4-letter alphabet up to length 4 (5 letters, length 5 in the thorough tier), grammar-directed port expressions (singles, ranges, reversed, equal, adjacent, overlapping, nested, "
         "0 and 65535, leading zeros, 65536+, long digit strings) and byte-level mutations of them (junk, signs, spaces, doubled/"
         "leading/trailing separators, wildcard look-alikes), Contains probed at every boundary +-1; (norm) Normalize on arbitrary "
         "range lists incl. reversed ranges; (ival) hop-interval configurations around 0, 5 s, min>max, one-sided, negative, int64 "
@@ -246,15 +246,16 @@ def gen_pu_exhaustive(alphabet, maxlen):
 
 
 def gen(rng, tier):
-    scale = 1 if tier == "quick" else 10
+    import os
+    scale = 1 if tier == "quick" else int(os.environ.get("VERIF_C19_SCALE", "10"))
     cases = []
     # every string over a tiny alphabet (all separator / digit arrangements)
-    cases += gen_pu_exhaustive("1,-3", 4) if tier == "quick" else gen_pu_exhaustive("01,-6 ", 5)
-    cases += gen_pu(rng, 900 * scale)
+    cases += gen_pu_exhaustive("1,-3", 4) if tier == "quick" else gen_pu_exhaustive("01,-6", 5)
+    cases += gen_pu(rng, 750 * scale)
     cases += gen_norm(rng, 200 * scale)
     cases += gen_ival(rng, 40 * scale)
     cases.append({"k": "pu", "s": "0-65535".encode().hex(), "probe": [0, 65535]})
-    hops = [gen_hop_one(rng) for _ in range(110 * scale)]
+    hops = [gen_hop_one(rng) for _ in range(90 * scale)]
     hops += [gen_hop_one(rng, big=True) for _ in range(3 * scale)]
     hops += [gen_hop_one(rng, full=True) for _ in range(2 * scale)]
     h = gen_hop_one(rng)
@@ -426,6 +427,10 @@ def fingerprint(c, o):
         return "read-after-close-stale-packet"
     if c["k"] == "hop" and "stale timeout after Close" in why:
         return "read-after-close-stale-packet"
+    if why:
+        # one VIOLATION line per kind of failure, not per port number / socket id
+        import re
+        return "C19:%s:%s" % (c["k"], re.sub(r"\d+", "N", why)[:120])
     return None
 
 
